@@ -33,6 +33,8 @@ def run(tier):
         reps.append(deductive.verify_function(rel, q, c, hooks=OW.hooks_for(c), prefix='%s::%s[what runs, what is stored]' % (rel, q)))
     reps += OW.fg_frame_reports()
     reps.append(OW.schedule_report())
+    for rel, q, c in OW.RG_PROJECT_ITEMS:
+        reps.append(deductive.verify_function(rel, q, c, hooks=OW.project_hooks(c), prefix='%s::%s[in-clique answers]' % (rel, q)))
     from ..contracts import feas as FE
     for rel, q, c in FE.ITEMS:
         reps.append(deductive.verify_function(rel, q, c, hooks=FE.hooks_for(c)))
